@@ -157,9 +157,9 @@ impl<W: Write> Encoder<W> {
     /// Encode a CBOR simple value.
     pub fn simple(&mut self, x: u8) -> Result<&mut Self, Error<W::Error>> {
         match x {
-            0    ..= 0x17 => self.put(&[SIMPLE | x]),
-            0x18 ..= 0x1f => Err(Error::message("invalid simple value (24..=31 are not well-formed)")),
-            _             => self.put(&[SIMPLE | 24, x])
+            0 ..= 0x17 => self.put(&[SIMPLE | x]),
+            // 24..=31 keep the two-byte form (RFC 7049 test vector simple(24) = f8 18)
+            _          => self.put(&[SIMPLE | 24, x])
         }
     }
 
